@@ -48,7 +48,7 @@ CHECKS = {
    note="Trusted: TLC; exactness of float arithmetic on the dyadic integer lattice. Path crops on curved segments are compared with Path.length(T0,T1) (the property's own oracle), closed forms only on polylines.",
    ref="4 (C09), 3.5, 3.6, 3.8"),
  'C10': dict(
-   technique="TLA+ models of SVG transform lists as integer affine matrices (Affine.tla) and of the joint re-joining pass (Rejoin.tla) model-checked with TLC; every product matrix and every joint pattern replayed through the real translated/rotated/scaled/transform",
+   technique="TLA+ models of SVG transform lists as integer affine matrices (Affine.tla) and of the joint re-joining pass (Rejoin.tla) model-checked with TLC; every product matrix and every joint pattern replayed through the real translated/rotated/scaled/transform; the underlying affine algebra (composition = composition of maps, associativity, det multiplicative, evaluation commutes with the map, area scales by det) proved for all integers with Apalache (spec/apalache/MC_Affine.tla)",
    text="TLC checks list = product, associativity, multiplicative determinant, rotate-about-centre, and affine invariance of Bezier evaluation for every list of <= 3 of 14 operations, and JointsKept (incl. the closing joint) for every joint pattern with independently rounded images; all ~200 distinct product matrices are applied with transform() to lattice Beziers (1e-12) and lattice arcs (1e-6) and image.point(t) is compared with M(point(t)); translated / rotated (default and explicit origins, angles incl. 390) / scaled (2, 1/2, -1, -3, 1/3; non-uniform on Beziers; arcs must refuse or be right); every joint pattern of <= 4 segments (L / Q / C / A mixes) is mapped with rounding-prone factors and joints that coincided must coincide exactly, closed paths stay closed.",
    note="Trusted: TLC, numpy for applying M to a point. Singular matrices are not generated (outside the property).",
    ref="4 (C10), 3.9"),
@@ -68,7 +68,7 @@ CHECKS = {
    note="Trusted: TLC. Optimality between witnesses (spacing 1/8, 1/16 thorough) is not decided for curved segments.",
    ref="4 (C13)"),
  'C14': dict(
-   technique="TLA+ lattice model of signed area (shoelace / Green's formula for polynomial segments) and of even-odd enclosure by exact orientation predicates with a general-position predicate (Area.tla) model-checked with TLC; every polygon, probe and containment pair replayed through area / path_encloses_pt / is_contained_by",
+   technique="TLA+ lattice model of signed area (shoelace / Green's formula for polynomial segments) and of even-odd enclosure by exact orientation predicates with a general-position predicate (Area.tla) model-checked with TLC; every polygon, probe and containment pair replayed through area / path_encloses_pt / is_contained_by; the underlying affine algebra (composition = composition of maps, associativity, det multiplicative, evaluation commutes with the map, area scales by det) proved for all integers with Apalache (spec/apalache/MC_Affine.tla)",
    text="TLC checks RevNegates, TranslationInvariant, DetScales, RotationInvariantStart, PolygonAgrees (Green = shoelace), BezRevNegates and ParityIndependentOfOpt for every polygon of 3..4 (5 thorough) distinct vertices of two grids; each polygon's area() must equal the exact value, change sign under reversed(), be invariant under translation and a shear and scale by the determinant; path_encloses_pt must equal the model's crossing parity for every half-integer probe proved to be in general position (proper crossings or strict separation, pairwise distinct crossing points); is_contained_by for a triangle at 8 offsets (only pairs in general position); closed Bezier paths against exact Green areas; ellipses from arcs within the chord bound with the sign of the sweep.",
    note="Trusted: TLC. Non-generic probes (through a vertex / self-intersection point / touching) are not generated: the library merges crossings at one point and the property excludes them.",
    ref="4 (C14), 3.11"),
@@ -88,7 +88,7 @@ CHECKS = {
    note="Trusted: TLC, the reading of the SVG 1.1/2 path grammar encoded in PathSem/PathLex (no trailing-dot numbers, no null arcs), Python float()/Fraction for number values. Arguments are small integers; float rounding of relative offsets is not modelled.",
    ref="4 (C02), 3.1, 3.2"),
  'C17': dict(
-   technique="TLA+ state machine of the SVG document tree and of the explicit-stack flattening traversal (SvgDoc.tla over AffineOps) model-checked with TLC; every tree rendered to SVG text and read through Document, paths_from_group, svg2paths and SaxDocument",
+   technique="TLA+ state machine of the SVG document tree and of the explicit-stack flattening traversal (SvgDoc.tla over AffineOps) model-checked with TLC; every tree rendered to SVG text and read through Document, paths_from_group, svg2paths and SaxDocument; the underlying affine algebra (composition = composition of maps, associativity, det multiplicative, evaluation commutes with the map, area scales by det) proved for all integers with Apalache (spec/apalache/MC_Affine.tla)",
    text="TLC checks StackEqualsRecursive and PartialOK (the traversal's matrices = product of ancestor transform lists, outermost first), TreeOK and ShapesClosed for every tree up to the node bound; every tree of root + 2 nodes (8 shape kinds x 10 transform lists x both nestings) and simulated trees of up to 7-9 nodes are rendered with ids and each API's result is compared per element id with the model's shape geometry (SVG 1.1 ch. 9) mapped by the model's matrix: Document.paths, paths_from_group for every group (recursive / not, by element / by nested names), svg2paths (identity, by design), SaxDocument.flatten_all_paths.",
    note="Trusted: TLC, xml parsing, the Arc class for reference arcs (C04). Integer attributes, invertible transform lists only; rx/ry never exceed half the rect; circle/ellipse compared as a closed arc outline through the four quadrant points.",
    ref="4 (C17), 3.12"),
